@@ -101,7 +101,7 @@ func (p *Parser) loadFileAndParents(path string, child *file) ([]*file, error) {
 		return nil, err
 	}
 
-	parents, err := f.parents()
+	parents, err := f.parents(p)
 	if err != nil {
 		return nil, err
 	}
@@ -130,8 +130,8 @@ func (f *file) setParents() {
 	}
 }
 
-func (f *file) parents() ([]string, error) {
-	parents, err := f.parentsFromDirective()
+func (f *file) parents(p *Parser) ([]string, error) {
+	parents, err := f.parentsFromDirective(p)
 	if err != nil {
 		return nil, err
 	}
@@ -140,7 +140,7 @@ func (f *file) parents() ([]string, error) {
 		return parents, nil
 	}
 
-	parents, err = f.parentsFromSymlink()
+	parents, err = f.parentsFromSymlink(p)
 	if err != nil {
 		return nil, err
 	}
@@ -149,10 +149,10 @@ func (f *file) parents() ([]string, error) {
 		return parents, nil
 	}
 
-	return f.parentsFromFilename()
+	return f.parentsFromFilename(p)
 }
 
-func (f *file) parentsFromDirective() ([]string, error) {
+func (f *file) parentsFromDirective(p *Parser) ([]string, error) {
 	parents := []string{}
 	noParent := false
 
@@ -198,10 +198,10 @@ func (f *file) parentsFromDirective() ([]string, error) {
 		return nil, nil
 	}
 
-	return f.toAbsolutePaths(parents)
+	return f.toAbsolutePaths(p, parents)
 }
 
-func (f *file) parentsFromSymlink() ([]string, error) {
+func (f *file) parentsFromSymlink(p *Parser) ([]string, error) {
 	if isStdin(f.path) {
 		return nil, nil
 	}
@@ -218,10 +218,10 @@ func (f *file) parentsFromSymlink() ([]string, error) {
 
 	f.path = dest
 
-	return f.parentsFromFilename()
+	return f.parentsFromFilename(p)
 }
 
-func (f *file) parentsFromFilename() ([]string, error) {
+func (f *file) parentsFromFilename(p *Parser) ([]string, error) {
 	if isStdin(f.path) {
 		return []string{}, nil
 	}
@@ -242,7 +242,7 @@ func (f *file) parentsFromFilename() ([]string, error) {
 	default:
 		layerPath := filepath.Join(dir, strings.Join(parts[:len(parts)-2], "."))
 
-		extPath := findFile(layerPath)
+		extPath := findFile(layerPath, p.stat)
 		if extPath == "" {
 			return nil, fmt.Errorf("[%s]: %w", layerPath, ErrMissingFile)
 		}
@@ -251,13 +251,13 @@ func (f *file) parentsFromFilename() ([]string, error) {
 	}
 }
 
-func (f *file) toAbsolutePaths(paths []string) ([]string, error) {
+func (f *file) toAbsolutePaths(p *Parser, paths []string) ([]string, error) {
 	ret := []string{}
 
 	for _, path := range paths {
 		path = filepath.Join(filepath.Dir(f.path), path)
 
-		matches, err := globFiles(path)
+		matches, err := p.globFiles(path)
 		if err != nil {
 			return nil, err
 		}
